@@ -310,6 +310,19 @@ func KStr(k, s string) KV          { v := pString(s); return KV{k, v.coq, v.want
 func KUint(k string, n uint64) KV  { v := pUint(n); return KV{k, v.coq, v.want} }
 func KBytes(k string, b []byte) KV { v := pBytes(b); return KV{k, v.coq, v.want} }
 func KHex(k string, b []byte) KV   { v := pHex(b); return KV{k, v.coq, v.want} }
+
+// KIface: a value logged through Interface / Any (what encoding/json answers for it, or its error)
+func KIface(k string, v interface{}) KV { x := pIface(v); return KV{k, x.coq, x.want} }
+
+// KF64 / KF32: a float logged through a typed method or a Fields case
+func KF64(k string, f float64) KV { x := pF64(math.Float64bits(f)); return KV{k, x.coq, x.want} }
+func KF32(k string, f float32) KV { x := pF32(math.Float32bits(f)); return KV{k, x.coq, x.want} }
+
+// KDict: a nested object with the given members
+func KDict(k string, xs ...KV) KV {
+	v := dictVal(unKV(xs))
+	return KV{k, v.coq, v.want}
+}
 func KArr(k string, xs ...KV) KV {
 	vs := make([]val, len(xs))
 	for i, x := range xs {
